@@ -5,6 +5,7 @@
 -/
 import GormModel.Model.Pipeline
 import GormModel.Gen.Finishers
+import GormModel.Gen.Misc
 namespace Gorm
 
 /-- argument shapes `callMethod` distinguishes (db.Statement.ReflectValue) -/
@@ -92,9 +93,11 @@ def concatAlts {α : Type} : List (List (List α)) → List (List α)
 /-- runs of finisher `fn`: per path, the (kind, hooksOn) sequence; re-entered finishers are expanded (`fuel`
     bounds the nesting: Save -> Create -> CreateInBatches is depth 3); `skip` = an enclosing entry already
     switched hooks off -/
-def runsOf (fs : List Gen.FinisherFact) : Nat → Bool → String → List (List (String × Bool))
+def runsOf (fs : List Gen.FinisherFact) (skipFns : List String := []) : Nat → Bool → String → List (List (String × Bool))
   | 0, _, _ => []
-  | fuel+1, skip, fn =>
+  | fuel+1, skip0, fn =>
+    -- `skipFns`: finishers that assign `tx.Statement.SkipHooks = true` before executing (UpdateColumn(s))
+    let skip := skip0 || skipFns.contains fn
     match fs.find? (fun f => f.fn = fn) with
     | none => []
     | some f =>
@@ -105,7 +108,11 @@ def runsOf (fs : List Gen.FinisherFact) : Nat → Bool → String → List (List
           | some e =>
             let sk := skip || e.skipHooks
             if e.callee = "" then [[(e.kind, !sk)]]
-            else runsOf fs fuel sk ("DB." ++ e.callee))
+            else runsOf fs skipFns fuel sk ("DB." ++ e.callee))
+
+/-- finishers of finisher_api.go that assign `Statement.SkipHooks = true` (regenerated: Gen.skipHooksAssigns) -/
+def skipHookFinishers : List String :=
+  (Gen.skipHooksAssigns.filter fun a => a.1 = "finisher_api.go" && a.2.2 = "true").map (·.2.1)
 
 /-- hook names one run can fire for a record -/
 def runHooks (ps : List (String × List CbReg)) (hs : List HandlerFact) (run : List (String × Bool)) : List String :=
